@@ -1,7 +1,10 @@
 (* C01 - the parse->emit round trip preserves execution behaviour (function-body level).  Statements only; proofs in
    Proofs/Sem.v.  Model/Sem.v: an abstract big-step semantics of structured operator forests ([eval], fuel counts loop
    re-entries; results Fall / Br d / Stop halt / Stuck / Fuel), PARAMETRIC in the machine state S, the semantics of the
-   individual operators [sem], the popping of conditions and indices, label arities and stack unwinding.
+   individual operators [sem], the popping of conditions and indices, label arities and the label discipline: [enter bt]
+   at the entry of a block / loop / if-arm (an instance records the operand-stack height there), [leave] when the construct
+   is left by its end or by a branch to an outer label, [unwind k] when a branch targets it (keep k values, drop to the
+   recorded height).  An absent `else` arm is evaluated as an empty one (entered, then left).
    - [nf_rt_list] is what the round trip does to a body (nop dropped, everything after the first br / br_table /
      return / unreachable of a sequence dropped, `else` synthesised, block types canonicalised, operators re-encoded);
      c01_emitted_body_is_flattened_normal_form / c01_emitted_bytes tie it to the emitted operator stream (with C03);
@@ -10,78 +13,91 @@
      return / unreachable never fall through, the output body evaluates to exactly the same result - value state, branch,
      halt (trap / return / tail call), stuckness and divergence - as the input body;
    - what is dropped is a nop or code that no execution reaches; an `if` without `else` behaves as with an empty `else`.
-   Not in Coq: concrete operator semantics, instantiation, the module-level renumbering / reordering of functions (the
+   - c01_integer_core_instance: the hypotheses are discharged for a CONCRETE machine (Model/SemCore.v: the integer core of
+     WebAssembly on bit patterns, locals / globals reached through slot maps, EXACT label heights), for every parse / emit
+     context: the output tree (the one whose flattening is the emitted stream) on the renumbered slots and the output
+     type table gives exactly the result of the input body.
+   Not in Coq: operator semantics outside that core, the module-level renumbering / reordering of functions (the
    renaming hypothesis covers it per operator); those are observed by executing input and output side by side. *)
 From Coq Require Import List NArith Bool. Import ListNotations.
 From WV Require Import Gen.Ops Model.Common Model.IR Model.ParseFn Model.ParseSpec Model.EmitFn Model.EmitSpec Model.BodySpec Model.Sem Proofs.Sem.
 
 Theorem c01_normal_form_is_equivalent :
   forall (S halt : Type) (pop_cond : S -> option (bool * S)) (pop_index : S -> option (N * S))
-           (unwind : N -> S -> S) (sem_in sem_out : wins -> S -> step S halt)
+           (unwind : N -> S -> S) (leave : S -> S) (sem_in sem_out : wins -> S -> step S halt)
+           (enter_in enter_out : blockty -> S -> S)
            (arity_in arity_out loop_arity_in loop_arity_out : blockty -> N),
          (forall (o : wop) (s : S), sem_out (WOp o) s = sem_in (WOp o) s) ->
+         (forall (bt : blockty) (s : S), enter_out bt s = enter_in bt s) ->
          (forall bt : blockty, arity_out bt = arity_in bt) ->
          (forall bt : blockty, loop_arity_out bt = loop_arity_in bt) ->
          (forall (o : wop) (s : S),
           marks_unreachable o = true -> exists (h : halt) (s' : S), sem_in (WOp o) s = Halt h s') ->
          forall (fuel : nat) (l : list rt) (s : S),
-         eval S halt pop_cond pop_index unwind sem_out arity_out loop_arity_out fuel 
+         eval S halt pop_cond pop_index unwind enter_out leave sem_out arity_out loop_arity_out fuel 
            (fst (nf_rt_list false l)) s =
-         eval S halt pop_cond pop_index unwind sem_in arity_in loop_arity_in fuel l s.
+         eval S halt pop_cond pop_index unwind enter_in leave sem_in arity_in loop_arity_in fuel l s.
 Proof. exact nf_equiv. Qed.
 
 Theorem c01_equivalence_on_the_renamed_operators :
   forall (S halt : Type) (pop_cond : S -> option (bool * S)) (pop_index : S -> option (N * S))
-           (unwind : N -> S -> S) (cx : pctx) (ecx : ectx) (sem_in sem_out' : wins -> S -> step S halt)
+           (unwind : N -> S -> S) (leave : S -> S) (cx : pctx) (ecx : ectx) (sem_in sem_out' : wins -> S -> step S halt)
+           (enter_in enter_out' : blockty -> S -> S)
            (arity_in arity_out' loop_arity_in loop_arity_out' : blockty -> N),
          (forall (o : wop) (s : S), sem_out' (nf_op cx ecx o) s = sem_in (WOp o) s) ->
+         (forall (bt : blockty) (s : S), enter_out' (nf_bt cx ecx bt) s = enter_in bt s) ->
          (forall bt : blockty, arity_out' (nf_bt cx ecx bt) = arity_in bt) ->
          (forall bt : blockty, loop_arity_out' (nf_bt cx ecx bt) = loop_arity_in bt) ->
          (forall (o : wop) (s : S),
           marks_unreachable o = true -> exists (h : halt) (s' : S), sem_in (WOp o) s = Halt h s') ->
          forall (fuel : nat) (l : list rt) (s : S),
-         eval S halt pop_cond pop_index unwind (sem_ren S halt cx ecx sem_out')
+         eval S halt pop_cond pop_index unwind (fun bt : blockty => enter_out' (nf_bt cx ecx bt)) leave
+           (sem_ren S halt cx ecx sem_out')
            (fun bt : blockty => arity_out' (nf_bt cx ecx bt))
            (fun bt : blockty => loop_arity_out' (nf_bt cx ecx bt)) fuel (fst (nf_rt_list false l)) s =
-         eval S halt pop_cond pop_index unwind sem_in arity_in loop_arity_in fuel l s.
+         eval S halt pop_cond pop_index unwind enter_in leave sem_in arity_in loop_arity_in fuel l s.
 Proof. exact nf_equiv_renamed. Qed.
 
 Theorem c01_divergence_preserved :
   forall (S halt : Type) (pop_cond : S -> option (bool * S)) (pop_index : S -> option (N * S))
-           (unwind : N -> S -> S) (sem_in sem_out : wins -> S -> step S halt)
+           (unwind : N -> S -> S) (leave : S -> S) (sem_in sem_out : wins -> S -> step S halt)
+           (enter_in enter_out : blockty -> S -> S)
            (arity_in arity_out loop_arity_in loop_arity_out : blockty -> N),
          (forall (o : wop) (s : S), sem_out (WOp o) s = sem_in (WOp o) s) ->
+         (forall (bt : blockty) (s : S), enter_out bt s = enter_in bt s) ->
          (forall bt : blockty, arity_out bt = arity_in bt) ->
          (forall bt : blockty, loop_arity_out bt = loop_arity_in bt) ->
          (forall (o : wop) (s : S),
           marks_unreachable o = true -> exists (h : halt) (s' : S), sem_in (WOp o) s = Halt h s') ->
          forall (fuel : nat) (l : list rt) (s : S),
-         eval S halt pop_cond pop_index unwind sem_out arity_out loop_arity_out fuel 
+         eval S halt pop_cond pop_index unwind enter_out leave sem_out arity_out loop_arity_out fuel 
            (fst (nf_rt_list false l)) s = Fuel <->
-         eval S halt pop_cond pop_index unwind sem_in arity_in loop_arity_in fuel l s = Fuel.
+         eval S halt pop_cond pop_index unwind enter_in leave sem_in arity_in loop_arity_in fuel l s = Fuel.
 Proof. exact nf_equiv_fuel. Qed.
 
 Theorem c01_only_dead_code_and_nops_dropped :
   forall (S halt : Type) (pop_cond : S -> option (bool * S)) (pop_index : S -> option (N * S))
-           (unwind : N -> S -> S) (sem_in : wins -> S -> step S halt) (arity_in loop_arity_in : blockty -> N),
+           (unwind : N -> S -> S) (leave : S -> S) (sem_in : wins -> S -> step S halt)
+           (enter_in : blockty -> S -> S) (arity_in loop_arity_in : blockty -> N),
          (forall (o : wop) (s : S),
           marks_unreachable o = true -> exists (h : halt) (s' : S), sem_in (WOp o) s = Halt h s') ->
          forall (l1 : list rt) (t : rt) (l2 : list rt),
          fst (nf_rt (snd (nf_rt_list false l1)) t) = [] ->
          (exists loc : N, t = RNop loc) \/
          (forall (fuel : nat) (s s' : S),
-          eval S halt pop_cond pop_index unwind sem_in arity_in loop_arity_in fuel l1 s <> Fall s') /\
+          eval S halt pop_cond pop_index unwind enter_in leave sem_in arity_in loop_arity_in fuel l1 s <> Fall s') /\
          (forall (fuel : nat) (s : S),
-          eval S halt pop_cond pop_index unwind sem_in arity_in loop_arity_in fuel (l1 ++ t :: l2) s =
-          eval S halt pop_cond pop_index unwind sem_in arity_in loop_arity_in fuel l1 s).
+          eval S halt pop_cond pop_index unwind enter_in leave sem_in arity_in loop_arity_in fuel (l1 ++ t :: l2) s =
+          eval S halt pop_cond pop_index unwind enter_in leave sem_in arity_in loop_arity_in fuel l1 s).
 Proof. exact nf_drops_only_dead. Qed.
 
 Theorem c01_else_synthesis :
   forall (S halt : Type) (pop_cond : S -> option (bool * S)) (pop_index : S -> option (N * S))
-           (unwind : N -> S -> S) (sem_in : wins -> S -> step S halt) (arity_in loop_arity_in : blockty -> N)
+           (unwind : N -> S -> S) (leave : S -> S) (sem_in : wins -> S -> step S halt)
+           (enter_in : blockty -> S -> S) (arity_in loop_arity_in : blockty -> N)
            (fuel : nat) (bt : blockty) (th : list rt) (l e le : N) (s : S),
-         eval_t S halt pop_cond pop_index unwind sem_in arity_in loop_arity_in fuel (RIf bt th None l e) s =
-         eval_t S halt pop_cond pop_index unwind sem_in arity_in loop_arity_in fuel
+         eval_t S halt pop_cond pop_index unwind enter_in leave sem_in arity_in loop_arity_in fuel (RIf bt th None l e) s =
+         eval_t S halt pop_cond pop_index unwind enter_in leave sem_in arity_in loop_arity_in fuel
            (RIf bt th (Some (le, [])) l e) s.
 Proof. exact else_synthesis. Qed.
 
@@ -167,6 +183,31 @@ Theorem c01_reordering_without_renaming_differs :
            (sigma 0) ex_st <> run cop cstep 50 ex_M 0 ex_st.
 Proof. exact ex_unrenamed_differs. Qed.
 
+(* ---- the abstract statement instantiated with a concrete machine (Model/SemCore.v, Proofs/SemCore.v) *)
+From WV Require Import Model.SemCore Proofs.ModFix10 Proofs.SemCore.
+Theorem c01_integer_core_instance :
+  forall (cx : pctx) (ecx : ectx) (lslot gslot lslot' gslot' : N -> N)
+           (tys tys' : N -> option (list valty * list valty)),
+         (forall i : N, lslot' (rl cx ecx i) = lslot i) ->
+         (forall i : N, gslot' (rg cx ecx i) = gslot i) ->
+         (forall i : N, tys i = bt_tys cx (BT_Func i)) ->
+         (forall (i : N) (ps rs : list valty), tys i = Some (ps, rs) -> existing cx ps rs <> None) ->
+         (forall (ps rs : list valty) (ty : N),
+          find_type cx ps rs = Some ty -> tys' (ex_id2i ecx S_type ty) = Some (ps, rs)) ->
+         forall (fuel : nat) (l : list rt) (s : SemCore.st),
+         run_core lslot' gslot' tys' fuel (map (ren_t cx ecx) (fst (nf_rt_list false l))) s =
+         run_core lslot gslot tys fuel l s.
+Proof. exact core_roundtrip_equiv_tys. Qed.
+
+Theorem c01_integer_core_never_falls :
+  forall (l g : N -> N) (o : wop) (s : SemCore.st),
+         marks_unreachable o = true ->
+         exists (h : SemCore.halt) (s' : SemCore.st), core_sem l g (WOp o) s = Halt h s'.
+Proof. exact core_never_falls. Qed.
+
+Theorem c01_encoder_total :
+  forall (id2i : space -> N -> N) (p : plain), encode_plain id2i p <> None.
+Proof. exact encode_total. Qed.
 
 Print Assumptions c01_normal_form_is_equivalent.
 Print Assumptions c01_equivalence_on_the_renamed_operators.
@@ -182,3 +223,6 @@ Print Assumptions c01_numeric_results_identical.
 Print Assumptions c01_interface_holds_for_reference_moving_operators.
 Print Assumptions c01_interface_has_content.
 Print Assumptions c01_reordering_without_renaming_differs.
+Print Assumptions c01_integer_core_instance.
+Print Assumptions c01_integer_core_never_falls.
+Print Assumptions c01_encoder_total.
